@@ -78,6 +78,9 @@ MUTATIONS = [
     ("tlexport/checksums.py", "    if calculated_checksum == b'\\x00\\x00':\n        calculated_checksum = bytearray(b'\\xff\\xff')", "    if calculated_checksum == b'\\x00\\x00':\n        calculated_checksum = bytearray(b'\\x00\\x00')", "calculate_checksum_udp: RFC 768 zero rule lost"),
     ("tlexport/checksums.py", "    if calculated_checksum == b'\\x00\\x00' and packet_checksum == b'\\xff\\xff':\n        return True", "    if calculated_checksum == b'\\x00\\x00' and packet_checksum == b'\\xff\\xff':\n        return False", "calculate_checksum_tcp: the two zeros no longer match"),
     ("tlexport/checksums.py", "    tcp_data[16:18] = bytearray(b'\\x00\\x00')", "    tcp_data[16:18] = bytearray(b'\\x00')", "calculate_checksum_tcp: field replaced by one byte"),
+    ("tlexport/cipher_suite_parser.py", "            if part == \"TagLength\":", "            if part == \"KeyLength\":", "split_cipher_suite: default tag length under the wrong part"),
+    ("tlexport/cipher_suite_parser.py", "        elif \"CCM\" in suite_string:", "        elif \"CCM_8\" in suite_string:", "split_cipher_suite: only CCM_8 suites become AESCCM"),
+    ("tlexport/cipher_suite_parser.py", "        \"AES_256\": 32,", "        \"AES_256\": 24,", "cipher_suite_parts: AES_256 key length 24"),
     ("tlexport/main.py", "if ((int(packet.tls_data[0]) & 0x40) >> 6) == 1 or args.greasy:", "if ((int(packet.tls_data[0]) & 0x80) >> 7) == 1 or args.greasy:", "run: fixed bit is bit 7"),
     ("tlexport/main.py", "                if len(cid) > 0 and cid == packet_payload[1:1 + len(cid)]:", "                if cid == packet_payload[1:1 + len(cid)]:", "handle_quic_packet: empty CID matches"),
     ("tlexport/main.py", "                    candidates = session.server_cids\n", "                    candidates = session.client_cids\n", "handle_quic_packet: sender-side CIDs"),
@@ -88,6 +91,7 @@ MUTATIONS = [
 
 # behaviour-preserving rewrites: (file, [(old, new)…], what)
 REWRITES = [
+    ("tlexport/cipher_suite_parser.py", [("        if not added_part:", "        if added_part == 0:")], "split_cipher_suite: `not added_part` written `added_part == 0`"),
     ("tlexport/checksums.py", [("        first = checksum >> 16\n        last = checksum & 0xFFFF\n        checksum = first + last",
                                 "        checksum = (checksum & 0xFFFF) + (checksum >> 16)")], "ones_complement_checksum: fold in one line, operands swapped"),
     ("tlexport/quic/quic_frame.py", [("        index = self.length\n\n        self.length += self.crypto_length\n        self.crypto = payload[index: self.length]",
@@ -121,6 +125,8 @@ def group_of(what):
              "matches_session": ["Demux"], "run": ["Demux"], "OutputBuilder": ["Ports"], "QUICOutputbuilder": ["Ports"],
              "Session.handle_packet": ["Reasm"], "extract_server_buf": ["Reasm"], "extract_client_buf": ["Reasm"],
              "PACKET_TYPE_MAP": ["Pn"], "set_packet_number_spaces": ["Pn"]}
+    if fn in ("split_cipher_suite", "cipher_suite_parts", "cipher_suites"):
+        return ["Suites"]
     if fn in ("ones_complement_checksum", "calculate_checksum_udp", "calculate_checksum_tcp"):
         return ["Checksum"]
     if fn in ("parse_frames", "frame_type") or fn.endswith("Frame"):
